@@ -26,6 +26,7 @@ struct Plan : sim::PlanBase {
   int lattice = 0;         // 1: single-bead molecules on distinct sites of four lines with spacing 0.25 nm in a 2.0 nm box, GRO format:
                            //    every pair distance inside the cut-off is exactly 0.25 or 0.5, all per-frame sums are exact in floating point
   long sparse_mask = 0;    // bit f set: frame f+1 places the molecules on a lattice wider than any cut-off (no inter-molecular pair)
+  int corrupt_frame = 0;   // > 0 (gro and xyz trajectories): the atom-count line of this frame is garbage, the reader throws when it gets there
   int stall_s = 0;         // > 0: one allocation point of an evaluating worker sleeps this many simulated seconds (a stalled worker)
   long alloc_stride = 0;   // > 0: every alloc_stride-th C++ allocation of an evaluating worker is a decision point
 };
